@@ -283,6 +283,9 @@ class SourceIndex:
         for path in glob.glob(self.repo + '/src/*.rs'):
             txt = open(path).read()
             txt = re.sub(r'//[^\n]*', '', txt)
+            for m in re.finditer(r'struct (\w+)\s*(<[^{;(]*>)?\s*\(([^;]*)\)\s*;', txt):
+                # tuple struct
+                self.structs[m.group(1)] = [(str(k), re.sub(r'^pub(\([a-z]+\))?\s+', '', part.strip())) for k, part in enumerate(split_top(m.group(3)))]
             for m in re.finditer(r'struct (\w+)\s*(<[^{;(]*>)?\s*(?:where[^{]*)?\{([^}]*)\}', txt):
                 fields = []
                 for part in split_top(m.group(3)):
@@ -626,6 +629,9 @@ class Engine:
             if getattr(self, '_static_str', None) is None:
                 self._static_str = self.new_obj('static', Opaque('str'))
             return Ptr(self._static_str)
+        if re.match(r'^<.* as core::mem::SizedTypeProperties>::(ALIGN|SIZE|IS_ZST)$', t):
+            # layout constants of the debug-assertion pointer checks: opaque, every pointer the model hands out is aligned
+            return Opaque('layout:' + t.rsplit('::', 1)[1])
         if t == 'log::STATIC_MAX_LEVEL':
             return Agg('LevelFilter', 'Trace')
         if t.endswith(']') and '::promoted[' in t:
@@ -756,6 +762,20 @@ class Engine:
         raise Unsupported('cast kind %s' % kind)
 
     def binop(self, op, a, b):
+        # alignment / size arithmetic of the compiler-inserted debug pointer checks (`addr & (ALIGN-1) == 0`)
+        if (isinstance(a, Opaque) and str(a.what).startswith('layout')) or (isinstance(b, Opaque) and str(b.what).startswith('layout')):
+            if op in ('Eq', 'Ne'):
+                other = b if isinstance(a, Opaque) else a
+                tok = a if isinstance(a, Opaque) else b
+                if other == 0 and tok.what == 'layout:mask':
+                    return op == 'Eq'          # address & (align-1) == 0: aligned
+                if other == 0 and tok.what in ('layout:SIZE', 'layout:ALIGN'):
+                    return op == 'Ne'          # sizes of the types involved are not zero
+                raise Unsupported('comparison of a layout constant')
+            if op in ('Sub', 'SubWithOverflow', 'BitAnd', 'Add', 'AddWithOverflow'):
+                r = Opaque('layout:mask')
+                return tup(r, False) if op.endswith('WithOverflow') else r
+            raise Unsupported('arithmetic on a layout constant: %s' % op)
         # pointer-derived integers
         if isinstance(a, PtrInt) or isinstance(b, PtrInt):
             if op in ('Sub', 'SubWithOverflow', 'SubUnchecked') and isinstance(a, PtrInt) and isinstance(b, PtrInt):
@@ -1111,6 +1131,10 @@ class Engine:
             if isinstance(v, TVal):
                 self.drop_T(v)
                 return
+            if isinstance(v, Agg) and v.name.startswith('{closure') and all(isinstance(f, (int, bool, Ptr)) for f in v.fields):
+                return      # a closure that captured by reference only
+            if isinstance(v, FnItem):
+                return
             raise Unsupported('drop glue for generic parameter %s holding %r' % (ty, v))
         if hs == 'Rc' and ('rc::Rc' in h or h == 'Rc'):
             b = self.P.methods.get(('Rc', 'Drop', 'drop'))
@@ -1176,8 +1200,10 @@ class Engine:
             v = self.read(ptr)
             if v is UNINIT:
                 raise UB('uninit-read', 'drop of moved-out Links')
-            self.free_container(v.fields[0])
-            return
+            if isinstance(v.fields[0], Own) or 'Links' not in self.P.src.structs:
+                self.free_container(v.fields[0])
+                return
+            # otherwise: the generic struct glue below (fields by their declared types)
         if hs == 'RefCell':
             v = self.read(ptr)
             if v is UNINIT:
